@@ -25,6 +25,9 @@ function canon_error(e) {
     return ['O', 0, n];
 }
 
+const leftovers = [];
+process.on('exit', () => { for (const d of leftovers) { try { fs.rmSync(d, {recursive: true, force: true}); } catch (e) {} } });
+
 module.exports.run_case = async function (c, repo) {
     const rbql_csv = require(path.join(repo, 'rbql-js', 'rbql_csv.js'));
     const d = fs.mkdtempSync(path.join(process.env.VERIF_SCRATCH || os.tmpdir(), 'c14w_'));
@@ -41,6 +44,11 @@ module.exports.run_case = async function (c, repo) {
         const raw = fs.readFileSync(outp);
         return {out: raw.toString(enc === 'binary' ? 'latin1' : 'utf-8'), warnings: warn_kinds(warns), error: null};
     } finally {
-        fs.rmSync(d, {recursive: true, force: true});
+        // the output stream of a failed query may still be creating / flushing its file: retry, and leave the rest to process exit
+        let gone = false;
+        for (let k = 0; k < 5 && !gone; k++) {
+            try { fs.rmSync(d, {recursive: true, force: true}); gone = true; } catch (e) { await new Promise((resolve) => setTimeout(resolve, 20)); }
+        }
+        if (!gone) leftovers.push(d);
     }
 };
